@@ -217,3 +217,6 @@ def run(ctx):
     r3(ctx, table, path2)
     r4(ctx)
     r5(ctx)
+    # a nested message must be written with its field number and length, as the .proto declares it
+    from .c17 import r8 as root_flag_consumed
+    root_flag_consumed(ctx, rule="C18.R6")
